@@ -6,7 +6,7 @@ import props
 VERIF = os.path.dirname(os.path.dirname(os.path.abspath(__file__)))
 
 
-def write(pid, P, tier, seed, results, all_obl, bounded, violations, known_hits, undecided, wall):
+def write(pid, P, tier, seed, results, all_obl, bounded, violations, known_hits, undecided, wall, twin_note=None):
     if os.environ.get('VERIF_NO_EVIDENCE'):
         return
     os.makedirs(os.path.join(VERIF, "evidence"), exist_ok=True)
@@ -27,7 +27,8 @@ def write(pid, P, tier, seed, results, all_obl, bounded, violations, known_hits,
         units.append(dict(route=route, unit=unit, status=r.status, reason=r.reason, wall_s=round(r.wall_s, 2),
                           solver_ms=getattr(r, "smt_ms", 0), backend=("verus+z3" if route == "verus" else "kani+cbmc"),
                           verus_verified_items=getattr(r, "verified_count", None),
-                          vacuity=getattr(r, "vacuity", None), generated_file=getattr(r, "file", None)))
+                          vacuity=getattr(r, "vacuity", None), generated_file=getattr(r, "file", None),
+                          solver_seeds=getattr(r, "seeds_checked", None)))
         for f in getattr(r, "functions", []):
             fns.append(dict(unit=unit, function=f["fn"], file=f.get("file"), line=f.get("line"),
                             contracted=f.get("contracted", True)))
@@ -65,6 +66,7 @@ def write(pid, P, tier, seed, results, all_obl, bounded, violations, known_hits,
         undecided_units=undecided,
         known_findings_reproduced=[k.get("witness") for k, o in known_hits],
         samples=samples,
+        bounded_exploration=(dict(kind="twin search (real FreeSpaceManager vs set model, all call sequences up to the stated depth); labelled bounded, not counted as proved", result=twin_note) if twin_note else None),
         exhaustive=False,
     )
     ev = dict(property_id=pid, tier=tier, seed=seed, level="proof", coverage=cov,
